@@ -195,7 +195,7 @@ def check(ctx):
         return
     SC = sc
     # ---- R2 quantile level -----------------------------------------------------------------------------------
-    ncal = ("sub", ("attr", CONF, "shape"), ("const", 0))
+    ncal = ir.nrows(CONF)
     qterms = [t for t in ir.walk(ret) if t[0] == "call" and ir.show(t[1]).endswith("quantile") and t[2] and t[2][0] == SC]
     corr = LOW
     g, _, _ = floor_shape(LOW)
@@ -280,7 +280,7 @@ def check(ctx):
             want_q = symexpr.Normalizer().norm(symexpr.parse("alpha * (1 + 1 / ncal)"))
             if a is not None:
                 r2 = s2.ret()
-                ncal2 = ("sub", ("attr", r2[2][2], "shape"), ("const", 0)) if r2[0] == "call" and len(r2[2]) == 3 else None
+                ncal2 = ir.nrows(r2[2][2]) if r2[0] == "call" and len(r2[2]) == 3 else None
                 nz = symexpr.Normalizer(leaf=lambda x: "ncal" if x == ncal2 else (x[1] if x[0] == "param" else None))
                 arg_ok = nz.norm(a) == want_q
     ctx.ob("C04.R3.level", f"{f.qualname}|weighted correction uses the same quantile level", arg_ok, f.where(),
@@ -315,7 +315,7 @@ def check(ctx):
     gp = ctx.fn(CM, "ConformalElectionModel.get_unit_predictions")
     gps = ctx.builder().summarize(gp)
     w = [x for x in gps.attr_writes if x[1] == "n_train"]
-    okn = len(w) == 1 and w[0][2] == ("sub", ("attr", RU, "shape"), ("const", 0))
+    okn = len(w) == 1 and w[0][2] == ir.nrows(RU)
     ctx.ob("C04.R6.n_train", f"{gp.qualname}|n_train = number of reporting units", okn, gp.where(),
            "self.n_train is the row count of the reporting frame" if okn else "self.n_train is not the number of reporting units")
 
@@ -323,7 +323,7 @@ def check(ctx):
 def _leaf_tr(t):
     if t == NTRAIN:
         return "n_train"
-    if t == ("sub", ("attr", RU, "shape"), ("const", 0)):
+    if t == ir.nrows(RU):
         return "n_reporting"
     if t[0] == "param":
         return t[1]
